@@ -33,6 +33,10 @@ func specC01() *propertySpec {
 			{"C01-R4", "logged-is-returned: Draw logs and returns the single result of g.value(t)", ruleC01R4},
 			{"C01-R5", "no-phantom-failure: every bracket invocation gets a fresh (or reset) T and consults its own flag (shared with C11-R1, C02-R2)", func(r *Run) { ruleC11R1(r); ruleC02R2(r) }},
 			{"C01-R6", "flaky-only-on-mismatch: the 'flaky test' report is reachable only through traceback(err1) != traceback(err2) of doCheck's two errors", ruleC01R6},
+			{"C01-R7", "failure-identity: the failure named in the report is the failure of the presented test case: minimisation compares candidates by a traceback that distinguishes a deferred failure-flag consult from a plain skip and different failure sites (shared with C05-R3)", ruleC05R3},
+			{"C01-R8", "replay-reads-what-was-recorded: the presented buffer is replayed word by word as it was recorded: drawBits records exactly the masked value it returns, the buffer stream consumes one word per draw (shared with C04-R3)", func(r *Run) { ruleC04R3(r); ruleC04R3buf(r) }},
+			{"C01-R9", "presented-case-sees-the-same-generator: the reproduction, every shrink attempt and the final replay draw from the generator the failing run drew from: no draw stores through or hands out generator-owned storage (shared with C15-R3)", ruleC15R3},
+			{"C01-R10", "no-failure-from-an-empty-rejected-attempt: a rejected attempt that drew nothing is not turned into a panic by endGroup's assertion on either stream kind (the search stream does not record, the reproduction does: a one-sided assertion is a 'flaky' report) (shared with C13-R6)", ruleEndGroupAssertExempt},
 		},
 	}
 }
@@ -133,6 +137,17 @@ func (p *Program) pairOK(buf, err ssa.Value) string {
 					k == "(*shrinker).shrink" && eb.Index == 0 && ee.Index == 1,
 					k == "checkFailFile" && eb.Index == 0 && (ee.Index == 1 || ee.Index == 2):
 					return "both are results of " + k + ", which returns verified pairs"
+				}
+			}
+		}
+	}
+	// a local function literal that wraps the run (replay := func(…) *testError { …; return checkOnce(t, prop) }): the
+	// error is what the literal returns
+	if c, ok := err.(*ssa.Call); ok {
+		if mc, ok := p.resolve(c.Common().Value).(*ssa.MakeClosure); ok {
+			if lit, ok := mc.Fn.(*ssa.Function); ok {
+				if rets := returnsOf(lit); len(rets) == 1 && len(rets[0].Results) == 1 {
+					err = p.resolve(p.res(rets[0], 0))
 				}
 			}
 		}
@@ -427,7 +442,15 @@ func specC05() *propertySpec {
 			{"C05-R4", "who-may-write: s.rec and s.err are stored only in accept and the constructor; shrink returns (s.rec.data, s.err)", ruleC05R4},
 			{"C05-R5", "deadline-per-step: the round loop and the outermost loop of every pass test time.Now().Before(deadline); every accept call happens inside such a loop; the deadline is handed down unchanged", ruleC05R5},
 			{"C05-R6", "candidates-from-current: every buffer passed to accept is a fresh copy (without / append(nil, …)); nothing stores through s.rec.data", ruleC05R6},
-			{"C05-R7", "prune-faithful: the buffer minimisation returns is the pruned recording of a verified run; pruning is replay-neutral, i.e. nothing derived from discarded bits steers later draws and an exhausted retry loop abandons the draw (shared with C04-R4.4/R4.5/R4.6/R4.8/R5)", func(r *Run) { ruleC04R44(r); ruleC04R45(r); ruleC04R46(r); ruleC04R48(r); ruleC04R5(r) }},
+			{"C05-R7", "prune-faithful: the buffer minimisation returns is the pruned recording of a verified run; pruning is replay-neutral, i.e. nothing derived from discarded bits steers later draws and an exhausted retry loop abandons the draw, the element of a rejected collection step is never accumulated (shared with C04-R4.4/R4.5/R4.6/R4.8/R5, C03-R2)", func(r *Run) {
+				ruleC04R44(r)
+				ruleC04R45(r)
+				ruleC04R46(r)
+				ruleC04R48(r)
+				ruleC04R5(r)
+				ruleC03R2(r)
+			}},
+			{"C05-R8", "minimisation-has-its-own-budget: shrink's deadline is shrinkDeadline(deadline) evaluated after the search (shared with C12-R5)", ruleShrinkBudget},
 		},
 	}
 }
@@ -954,6 +977,9 @@ func ruleC05R5(r *Run) {
 		for _, cs := range p.callsTo(fn, "(*shrinker).accept") {
 			na++
 			blk := cs.Instr.Block()
+			if li := p.liftTo(cs.Instr, fn); li != nil {
+				blk = li.Block() // the call may sit in a helper inlined into fn
+			}
 			f := fn
 			// closures: judged at their creation site
 			for f.Parent() != nil {
